@@ -20,7 +20,7 @@ package centrifuge
 //                (node.Disconnect or the client closing the socket), then is released.
 // Output: `frames=<client side frame log> enc=<encoder log> notes=<…>`; frame log entries:
 //   C (connect reply) pub:<ch> sub:<ch> unsub:<ch> rpc disc push ?, prefixed with Z when the frame
-//   went through the encoder.  HARNESS-TIMEOUT when a budget expired where progress was certain.
+//   went through the encoder; replies batched into one transport write are joined with '+'.  HARNESS-TIMEOUT when a budget expired where progress was certain.
 
 import (
 	"bufio"
@@ -219,24 +219,35 @@ func verifC11Race(kv map[string]string) string {
 			if enc {
 				m = m[1:]
 			}
+			// one WebSocket message = one transport write; several replies batched into it are joined
+			// with '+' in the frame log
+			parts := []string{}
+			hasC := false
 			for _, line := range bytes.Split(m, []byte("\n")) {
 				if len(bytes.TrimSpace(line)) == 0 {
 					continue
 				}
 				c := verifC11Classify(line, enc)
-				fmu.Lock()
-				frames = append(frames, c)
-				fmu.Unlock()
+				parts = append(parts, c)
 				if strings.HasSuffix(c, "C") {
-					select {
-					case gotConnect <- struct{}{}:
-					default:
-					}
+					hasC = true
 				}
+			}
+			if len(parts) == 0 {
+				continue
+			}
+			fmu.Lock()
+			frames = append(frames, strings.Join(parts, "+"))
+			fmu.Unlock()
+			if hasC {
 				select {
-				case gotAny <- struct{}{}:
+				case gotConnect <- struct{}{}:
 				default:
 				}
+			}
+			select {
+			case gotAny <- struct{}{}:
+			default:
 			}
 		}
 	}()
@@ -352,8 +363,10 @@ func verifC11Race(kv map[string]string) string {
 				fmu.Lock()
 				found := false
 				for _, f := range frames[before:] {
-					if strings.TrimPrefix(f, "Z") == want {
-						found = true
+					for _, part := range strings.Split(f, "+") {
+						if strings.TrimPrefix(part, "Z") == want {
+							found = true
+						}
 					}
 				}
 				fmu.Unlock()
